@@ -296,7 +296,7 @@ func verifRun(out *verifutil.Out, cfg verifCfg) bool {
 			defer wgI.Done()
 			<-start
 			verifSleep(cfg.invDelay[k])
-			sc.ts.InvokeBackgroundTask(sc.body(k), time.Minute)
+			sc.ts.InvokeBackgroundTask(sc.body(k), 10*time.Minute)
 			// ---- oracle: nothing of this invocation is alive once it has returned ----
 			atomic.StoreInt32(&sc.returned[k], 1)
 			if a := atomic.LoadInt64(&sc.aliveInv[k]); a != 0 {
